@@ -1,7 +1,6 @@
 package netutil
 
 import (
-	"net"
 	"strings"
 )
 
@@ -49,9 +48,20 @@ func StripHostPort(h string) string {
 		return strings.TrimSuffix(h, ".")
 	}
 
-	host, port, err := net.SplitHostPort(h)
-	if err != nil || !validOptionalPort(h[len(h)-len(port)-1:]) {
-		return h // on error or when the port is not numeric (see SplitHostPort), return unchanged
+	// Same acceptance as net.SplitHostPort restricted to numeric ports (see SplitHostPort), but without the error value
+	// that net.SplitHostPort allocates for every host it rejects (e.g. an IPv6 literal without port such as "[::1]").
+	colon := strings.LastIndexByte(h, ':')
+	if !validOptionalPort(h[colon:]) {
+		return h // the text after the last colon is not a port, return unchanged
+	}
+	host := h[:colon]
+	if strings.HasPrefix(host, "[") {
+		if !strings.HasSuffix(host, "]") || strings.ContainsAny(host[1:len(host)-1], "[]") {
+			return h // malformed IPv6 literal, return unchanged
+		}
+		host = host[1 : len(host)-1]
+	} else if strings.ContainsAny(host, ":[]") {
+		return h // too many colons or stray bracket, return unchanged
 	}
 	return strings.TrimSuffix(host, ".")
 }
